@@ -1,1 +1,2 @@
+import Generated.Kernels
 import Generated.UtilCanon
